@@ -165,6 +165,14 @@ def sum_(interp, argv):
             interp.ctx.seqsums = []
         interp.ctx.seqsums.append((total, v))
         return VInt(total)
+    if len(argv) == 1 and v.kind == 'nodemapview' and v.what == 'values':
+        # sum of the values of a map keyed by nodes: an uninterpreted integer remembered with the map (trusted: sum() adds the values up,
+        # one per key; the contract states which map it is and what its values are)
+        total = fresh('mapsum', Int)
+        if not hasattr(interp.ctx, 'mapsums'):
+            interp.ctx.mapsums = []
+        interp.ctx.mapsums.append((total, v.m))
+        return VInt(total)
     raise Undecided('sum()')
 
 
